@@ -117,24 +117,84 @@ ZERO = Poly()
 ONE = Poly.const(1)
 
 
+def _cmul(a, b):
+    if isinstance(a, Poly) or isinstance(b, Poly):
+        pa = a if isinstance(a, Poly) else Poly.const(a)
+        pb = b if isinstance(b, Poly) else Poly.const(b)
+        return pa * pb
+    return a * b
+
+
+def _capply(p, c):
+    return p * c if isinstance(c, Poly) else p.scale(c)
+
+
 class Normaliser:
     """Works on *canonical* ASTs (pattern.canon): callee names are short names."""
 
-    def __init__(self, rename=None, odd_funcs=('skew', 'unitvec_dir', 'sin', 'transl', 'vex'), subst=None):
+    def __init__(self, rename=None, odd_funcs=('skew', 'unitvec_dir', 'sin', 'transl', 'vex'), subst=None, noncomm=False):
         self.rename = rename or {}
         self.odd = set(odd_funcs)
         self.subst = subst or {}
+        self.noncomm = noncomm      # treat `*` between non-constant factors as an ordered (quaternion) product
+
+    def nc_word(self, e):
+        """ordered product word for non-commutative `*`: -> (coefficient Fraction, [factors])"""
+        if isinstance(e, ast.UnaryOp) and isinstance(e.op, ast.USub):
+            c, w = self.nc_word(e.operand)
+            return (-c, w)
+        if isinstance(e, ast.BinOp) and isinstance(e.op, ast.Mult):
+            c1, w1 = self.nc_word(e.left)
+            c2, w2 = self.nc_word(e.right)
+            return (c1 * c2, w1 + w2)
+        n = _num(e)
+        if n is not None:
+            return (n, [])
+        p = self.poly(e)
+        cv = p.const_value()
+        if cv is not None:
+            return (cv, [])
+        sa = p.single_atom()
+        if sa is not None:
+            return (Fraction(sa[0]), [sa[1]])
+        return (Fraction(1), ['(' + str(p) + ')'])
+
+    SCALAR_FUNCS = {'sin', 'cos', 'tan', 'sqrt', 'norm', 'abs', 'dot', 'trace', 'det', 'acos', 'asin', 'atan2', 'atan',
+                    'float', 'normsq', 'inner', 'len', 'sum'}
+
+    def is_scalar_expr(self, e):
+        """syntactically scalar: numbers, scalar functions, names declared scalar, arithmetic of those"""
+        if _num(e) is not None:
+            return True
+        if isinstance(e, ast.Name):
+            return e.id in getattr(self, 'scalars', ())
+        if isinstance(e, ast.UnaryOp):
+            return self.is_scalar_expr(e.operand)
+        if isinstance(e, ast.BinOp) and not isinstance(e.op, ast.MatMult):
+            return self.is_scalar_expr(e.left) and self.is_scalar_expr(e.right)
+        if isinstance(e, ast.Call) and isinstance(e.func, ast.Name) and e.func.id in self.SCALAR_FUNCS:
+            return True
+        return False
 
     # ---- words for matrix products
     def word(self, e):
-        """-> (sign:int, [factor strings]) for an expression used as a matrix factor"""
+        """-> (coefficient: int or Poly, [factor strings]) for an expression used as a matrix factor"""
         if isinstance(e, ast.UnaryOp) and isinstance(e.op, ast.USub):
             s, w = self.word(e.operand)
-            return (-s, w)
+            return (-s if not isinstance(s, Poly) else -s, w)
         if isinstance(e, ast.BinOp) and isinstance(e.op, ast.MatMult):
             s1, w1 = self.word(e.left)
             s2, w2 = self.word(e.right)
-            return (s1 * s2, w1 + w2)
+            return (_cmul(s1, s2), w1 + w2)
+        if isinstance(e, ast.BinOp) and isinstance(e.op, ast.Mult) and not self.noncomm:
+            # scalar * matrix inside a product chain: pull the scalar out
+            for a, b in ((e.left, e.right), (e.right, e.left)):
+                if self.is_scalar_expr(a):
+                    s, w = self.word(b)
+                    return (_cmul(self.poly(a), s), w)
+        if isinstance(e, ast.BinOp) and isinstance(e.op, ast.Div) and self.is_scalar_expr(e.right):
+            s, w = self.word(e.left)
+            return (_cmul(self.poly(ast.BinOp(left=ast.Constant(value=1), op=ast.Div(), right=e.right)), s), w)
         if isinstance(e, ast.Attribute) and e.attr == 'T':
             s, w = self.word(e.value)
             return (s, [self._tr(x) for x in reversed(w)])
@@ -213,6 +273,11 @@ class Normaliser:
             if isinstance(e.op, ast.Sub):
                 return self.poly(e.left) - self.poly(e.right)
             if isinstance(e.op, ast.Mult):
+                if self.noncomm:
+                    c, w = self.nc_word(e)
+                    if not w:
+                        return Poly.const(c)
+                    return Poly.atom(' * '.join(w)).scale(c)
                 return self.poly(e.left) * self.poly(e.right)
             if isinstance(e.op, ast.Div):
                 d = self.poly(e.right)
@@ -242,10 +307,10 @@ class Normaliser:
                 return Poly.atom('pow(%s, %s)' % (str(self.poly(e.left)), str(self.poly(e.right))))
             if isinstance(e.op, ast.MatMult):
                 s, w = self.word(e)
-                return Poly.atom(' @ '.join(w)).scale(s)
+                return _capply(Poly.atom(' @ '.join(w)), s)
         if isinstance(e, ast.Attribute) and e.attr == 'T':
             s, w = self.word(e)
-            return Poly.atom(' @ '.join(w)).scale(s)
+            return _capply(Poly.atom(' @ '.join(w)), s)
         if isinstance(e, ast.Call) and isinstance(e.func, ast.Name):
             fn = e.func.id
             if fn == 'cross' and len(e.args) == 2:
